@@ -109,6 +109,10 @@ class Outcome:
         self.known_seen = {}  # key -> [count, first witness]
         self.violations = []  # (key, case dict)
         self.t0 = time.time()
+        # replay artefacts of earlier runs of this property are stale by definition
+        import shutil
+
+        shutil.rmtree(os.path.join(VERIF, "replays", pid), ignore_errors=True)
 
     def fail(self, key, case):
         """Record a failing case. `key` identifies the failure class narrowly; if it is listed as a known finding the
